@@ -1,0 +1,7 @@
+//go:build verif
+// +build verif
+
+package x509
+
+// VerifBer2Der exposes the BER to DER transcoder to the verification harness (build tag `verif`).
+func VerifBer2Der(ber []byte) ([]byte, error) { return ber2der(ber) }
